@@ -69,6 +69,8 @@ Theorem C22_source_facts :
   gen_replies_go_to_recorded_client = true /\
   gen_expected_set_only_for_specified_request_address = true /\
   gen_association_gets_control_connection = true /\
-  gen_request_address_bytes_are_not_shared = true.
+  gen_request_address_bytes_are_not_shared = true /\
+  gen_read_loop_relays_synchronously = true /\
+  gen_agent_relay_keeps_no_reference_to_the_datagram = true.
 Proof. repeat split; reflexivity. Qed.
 Print Assumptions C22_source_facts.
